@@ -63,7 +63,13 @@
 (*      LiveStrict holds for Methods \subseteq {"write","atomic"} and is   *)
 (*      VIOLATED as soon as "recreate" or "moveaway" is allowed.           *)
 (*                                                                         *)
-(*  (e) PassesApplied, GlobalsBound: the registry in use has been through  *)
+(*  (e) PassesApplied, GlobalsBound, MessagesProcessed, SourceMapsFresh,   *)
+(*      GeneratorCurrent: the registry in use has been through EVERY       *)
+(*      post-parse step of Compile (registered passes, CheckDataRefs - an  *)
+(*      even file's "bad" version fails only there -, SetGlobals,          *)
+(*      ProcessMessages), its private source maps describe the templates   *)
+(*      it holds, and a soyjs.Generator made from it shows them.           *)
+(*      PassesApplied, GlobalsBound: the registry in use has been through  *)
 (*      every parse pass registered with AddParsePass, and its templates   *)
 (*      are bound to the bundle's globals (the recompiler's fresh bundle   *)
 (*      must carry both over; every template of the harness prints a       *)
@@ -100,7 +106,11 @@
 (* "readd_after_read" (the watch is added back after the files were read), *)
 (* "passes_skipped_on_recompile" (what the code did before 1156157: the    *)
 (* fresh bundle has no parse passes), "globals_dropped_on_recompile" (the  *)
-(* fresh bundle is built without AddGlobalsMap(b.globals)).                *)
+(* fresh bundle is built without AddGlobalsMap(b.globals)),                *)
+(* "messages_not_processed_on_recompile" (the recompiler calls an internal *)
+(* compile without ProcessMessages), "datarefs_not_checked_on_recompile",  *)
+(* "source_maps_stale_after_swap" (only the exported fields are swapped    *)
+(* in), "generator_caches_per_file" (soyjs.Generator never invalidates).   *)
 (*                                                                         *)
 (* M2: with HistOn the writer starts a write only at quiescence and the    *)
 (* registry is observed at the next quiescence (that is what the harness   *)
@@ -146,8 +156,16 @@ IdleW == [st |-> "idle", f |-> 0, v |-> "none", m |-> "none", k |-> 0]
 NoEv == [f |-> 0, op |-> "none"]
 \* every template of the harness prints one global; the bundle defines it as Glob
 Glob == "g"
-NoX == [p |-> {}, g |-> "none"]
-FullX == [p |-> Passes, g |-> Glob]
+\* per registry: p = parse passes it went through, g = global value bound
+\* (SetGlobals), m = ProcessMessages ran (message ids and placeholder names
+\* are set), src = the snapshot its private source maps (the text
+\* Registry.LineNumber slices) describe; CheckDataRefs leaves no trace in a
+\* registry: it shows in what Compile rejects (BadRef)
+NoX == [p |-> {}, g |-> "none", m |-> FALSE, src |-> NoSnap]
+FullX == [p |-> Passes, g |-> Glob, m |-> TRUE, src |-> InitDisk]
+\* the "bad" version of an even file parses but uses an undeclared variable
+\* (rejected by CheckDataRefs only); that of an odd file does not parse
+BadRef(f) == f % 2 = 0
 NoCb == [n |-> 0, arg |-> NoSnap, argx |-> NoX]
 Ev(f, op) == [f |-> f, op |-> op]
 NSteps(m) == IF m = "atomic" THEN 1 ELSE 2
@@ -287,8 +305,14 @@ ReadStep ==
 Compile ==
   /\ rpc = "compile"
   /\ LET gl == IF "globals_dropped_on_recompile" \in Dev THEN "none" ELSE Glob
-         ok == AllValid(rsnap) /\ gl # "none"
-     IN /\ rsnapx' = IF ok THEN [p |-> IF "passes_skipped_on_recompile" \in Dev THEN {} ELSE Passes, g |-> gl] ELSE NoX
+         compiles(f) == \/ rsnap[f] \in Valid
+                        \/ rsnap[f] = "bad" /\ BadRef(f) /\ "datarefs_not_checked_on_recompile" \in Dev
+         ok == (\A f \in Files : compiles(f)) /\ gl # "none"
+     IN /\ rsnapx' = IF ok THEN [p |-> IF "passes_skipped_on_recompile" \in Dev THEN {} ELSE Passes,
+                                 g |-> gl,
+                                 m |-> "messages_not_processed_on_recompile" \notin Dev,
+                                 src |-> rsnap]
+                    ELSE NoX
         /\ rpc' = IF ~ok THEN "fail" ELSE IF "callback_after_swap" \in Dev THEN "swap" ELSE "cb"
   /\ UNCHANGED <<wdisk, wwatch, wq, wwr, wleft, rev, rnext, rsnap, wreg, wregx, wcb, wlost, wsnaps, whist>>
 
@@ -312,7 +336,10 @@ Callback ==
 \* *reg = *registry
 Swap ==
   /\ rpc = "swap"
-  /\ wreg' = rsnap /\ wregx' = rsnapx
+  /\ wreg' = rsnap
+  \* `*reg = *registry` copies the private source maps too; assigning only the
+  \* exported fields leaves them describing the first compilation
+  /\ wregx' = IF "source_maps_stale_after_swap" \in Dev THEN [rsnapx EXCEPT !.src = wregx.src] ELSE rsnapx
   /\ rpc' = IF "callback_after_swap" \in Dev THEN "cb" ELSE "logok"
   /\ UNCHANGED <<wdisk, wwatch, wq, wwr, wleft, rev, rnext, rsnap, rsnapx, wcb, wlost, wsnaps, whist>>
 
@@ -350,6 +377,12 @@ RegValid == AllValid(wreg)
 \* its templates are bound to the bundle's globals
 PassesApplied == wregx.p = Passes
 GlobalsBound == wregx.g = Glob
+MessagesProcessed == wregx.m
+SourceMapsFresh == wregx.src = wreg
+\* a soyjs.Generator made once from the registry in use reads it at every call;
+\* one that keeps what it generated per file name keeps showing the first compile
+GenOutput == IF "generator_caches_per_file" \in Dev THEN InitDisk ELSE wreg
+GeneratorCurrent == Quiet => GenOutput = wreg
 Installing == rpc \in {"cb", "swap", "logok"}
 PerFileFromDisk == Installing => \A f \in Files : \E s \in wsnaps : rsnap[f] = s[f]
 SnapshotExisted == Installing => rsnap \in wsnaps
@@ -367,10 +400,10 @@ IsSwap == rpc = "swap" /\ rpc' # "swap"
 IsCallback == rpc = "cb" /\ rpc' # "cb"
 IsLogOK == rpc = "logok" /\ rpc' = "idle"
 FailKeepsRegistry == [][IsFail => wreg' = wreg]_vars
-OnlySwapChangesRegistry == [][<<wreg, wregx>>' # <<wreg, wregx>> => (IsSwap /\ AllValid(rsnap) /\ wreg' = rsnap /\ wregx' = rsnapx)]_vars
+OnlySwapChangesRegistry == [][<<wreg, wregx>>' # <<wreg, wregx>> => (IsSwap /\ AllValid(rsnap) /\ wreg' = rsnap)]_vars
 
 \* (c)
-CallbackBeforeVisible == [][IsSwap => (wcb.n = 1 /\ wcb.arg = wreg' /\ wcb.argx = wregx')]_vars
+CallbackBeforeVisible == [][IsSwap => (wcb.n = 1 /\ wcb.arg = wreg' /\ wcb.argx = rsnapx)]_vars
 CallbackOncePerSuccess == [][(IsCallback => wcb.n = 0) /\ (IsLogOK => (wcb.n = 1 /\ wcb.arg = wreg))]_vars
 NoCallbackOnFail == [][IsFail => wcb.n = 0]_vars
 
@@ -385,5 +418,6 @@ EmitHist == (HistOn /\ whist # <<>> /\ LastObserved /\ Quiet) =>
               PrintT(ToJson([h |-> [i \in 1..Len(whist) |->
                  [f |-> whist[i].f, v |-> whist[i].v, m |-> whist[i].m,
                   obs |-> [j \in 1..NF |-> whist[i].obs[j]],
-                  p |-> whist[i].ox.p, g |-> whist[i].ox.g]]]))
+                  p |-> whist[i].ox.p, g |-> whist[i].ox.g, mp |-> whist[i].ox.m,
+                  src |-> [j \in 1..NF |-> whist[i].ox.src[j]]]]]))
 =============================================================================
